@@ -1305,7 +1305,29 @@ fn behavioural_roundtrip(ctx: &Ctx, out: &mut WorkerOut) {
                 via_binary_roundtrip: true,
                 ..Opts::default()
             };
-            let mut ex = Explorer::new(&d, opts);
+            explore_reloaded(ctx, out, &d, opts, idx);
+        }
+    }
+    // wide documents: more than 2^8 (thorough: also a second size) expressions in one model
+    for n in if ctx.thorough() { vec![100usize, 300] } else { vec![100usize] } {
+        idx += 1;
+        if !ctx.mine(idx) {
+            continue;
+        }
+        let d = wide_chain_doc(n);
+        let opts = Opts {
+            via_binary_roundtrip: true,
+            max_states: 1000,
+            ..Opts::default()
+        };
+        explore_reloaded(ctx, out, &d, opts, idx);
+    }
+}
+
+fn explore_reloaded(ctx: &Ctx, out: &mut WorkerOut, d: &Doc, opts: Opts, idx: usize) {
+    {
+        {
+            let mut ex = Explorer::new(d, opts);
             ex.explore();
             out.add("behaviour_documents", 1);
             out.add("behaviour_states", ex.rep.states as u64);
@@ -1323,6 +1345,33 @@ fn behavioural_roundtrip(ctx: &Ctx, out: &mut WorkerOut) {
             }
         }
     }
+}
+
+/// a chain of n states whose guards and assignments are all distinct expressions (several hundred
+/// source texts in one document: identifiers that the format stores per expression cross the 2^8
+/// boundary); c_i --e[v == i]--> c_i+1 (v = v + 1), c_i --j[v == i]--> c_i+10 (v = v + 10)
+fn wide_chain_doc(n: usize) -> Doc {
+    let mut d = Doc::new();
+    d.nodes[0].data.push(("v".into(), Some(Expr::Int(0))));
+    let ids: Vec<Nx> = (0..n).map(|i| d.add(0, &format!("c{}", i), Kind::State)).collect();
+    for i in 0..n {
+        let nm = d.nodes[ids[i]].name.clone();
+        d.nodes[ids[i]].onentry.push(vec![Stmt::MarkE(vec!["en".into(), nm.clone()], Expr::Var("v".into()))]);
+        let mut push = |d: &mut Doc, ev: &str, step: usize| {
+            if i + step < n {
+                d.nodes[ids[i]].trans.push(Trans {
+                    events: vec![ev.into()],
+                    cond: Some(Expr::VarEq("v".into(), i as i64)),
+                    targets: vec![ids[i + step]],
+                    internal: false,
+                    content: vec![Stmt::Assign("v".into(), Expr::VarPlus("v".into(), step as i64)), Stmt::Mark(vec!["t".into(), nm.clone(), ev.into()])],
+                });
+            }
+        };
+        push(&mut d, "e", 1);
+        push(&mut d, "j", 10);
+    }
+    d
 }
 
 fn replay(ctx: &Ctx, path: &str) -> i32 {
